@@ -342,6 +342,31 @@ def fuzz_contract(qual, seed=0, n=300, registry=None):
     return None, tried
 
 
+def fresh_outcome(qual, inp):
+    """repr of what the real function returns / raises on `inp` in a FRESH interpreter (no earlier call in the process), formatted like the
+    `cpython` side of the translation cross-check; None when the subprocess fails"""
+    import json, subprocess, sys
+    code = ("import json, sys, warnings\n"
+            "warnings.simplefilter('ignore')\n"
+            "sys.path.insert(0, %r)\n"
+            "from pyvc import native, contract\n"
+            "c = contract.Registry().get(%r)\n"
+            "inp = json.loads(sys.stdin.read())\n"
+            "f = native.real_function(c.target)\n"
+            "kw = {p: native.to_native(c.param_kinds[p], inp[p]) for p in c.param_names if p in inp}\n"
+            "try:\n    want = ('return', f(**kw))\n"
+            "except Exception as ex:\n    want = ('raise', type(ex).__name__)\n"
+            "print('OUT:' + repr(want)[:200])\n") % (os.path.dirname(os.path.dirname(os.path.abspath(__file__))), qual)
+    try:
+        r = subprocess.run([sys.executable, '-c', code], input=json.dumps(inp), capture_output=True, text=True, timeout=120, env=dict(os.environ))
+        for line in r.stdout.splitlines():
+            if line.startswith('OUT:'):
+                return r.stdout[r.stdout.index('OUT:') + 4:].strip()
+    except Exception:
+        return None
+    return None
+
+
 def reach_witness(qual, seed=0, n=300, registry=None):
     """an input that satisfies the precondition natively, on which the real function returns normally and its contract holds: a concrete
     witness that the hypotheses of the function's obligations are satisfiable (used when the solver cannot build a model of quantified
